@@ -12,8 +12,9 @@
 -/
 import Golib.Gen.C15
 import Golib.Hash.GoBridgeHash
-import Golib.Hash.Murmur
-import Golib.Hash.Hexa32
+import Golib.Hash.GoBridgeHexa
+import Golib.Hash.GoBridgeMurmur
+import Golib.Hash.IpShape
 
 namespace C15Gen
 open GoSem GoBridge Gen.C15
@@ -145,5 +146,89 @@ theorem hashCode_tied (bs : Bytes) (hw : WFB bs) (ρ : Env) :
   hashCode_fn_bridge _ _ _ (by decide +kernel) (by decide +kernel) (by decide +kernel) bs hw ρ
 
 example : WFB [104, 105] := by decide
+
+/-! ### util/hexa32 — `to_long` and `to_str`, whole functions -/
+
+/-- `to_long`: prelude (`result`, `limit = -MaxInt64`, `multmin = limit/32`), per character
+    `digit := findc(…)` and the guarded loop body, final `-result` — is `Hexa32.toLong`, for every text -/
+theorem toLong_tied (ρ : Env) (cs : List Char) :
+    goToLong noArr fn_findc loop_to_long.body loop_to_long.after (runEnv noArr ρ loop_to_long.pre) cs
+      = Hexa32.toLong cs :=
+  toLong_fn_bridge fn_findc loop_to_long.pre loop_to_long.body loop_to_long.after
+    (by decide +kernel) (by decide +kernel) (by decide +kernel) (by decide +kernel) noArr ρ cs
+
+/-- the closure `findc` -/
+theorem findc_tied (c : Char) : call noArr fn_findc [(c.toNat : Int)] = Hexa32.findc c := by
+  have h : fn_findc.params = GoModel.fn_findc.params ∧ normStmts fn_findc.body = normStmts GoModel.fn_findc.body := by
+    decide +kernel
+  rw [← findc_bridge c]
+  unfold call
+  rw [h.1, (normStmts_eq h.2 noArr _).2]
+
+/-- `to_str(v)`: `radix := 32`, `i = -i`, the digit loop on the negated value (condition, stored digit,
+    `i = i / radix`), the last digit — is `Hexa32.toStr v`, for every `0 ≤ v ≤ MaxInt64` -/
+theorem toStr_tied (v : Int) (hv : 0 ≤ v ∧ v ≤ Hexa32.maxInt64) (ρ : Env) (h0 : ρ 0 = v) :
+    goToStrLoop hexaArrs loop_to_str.cond loop_to_str.body loop_to_str.post loop_to_str.after (v.natAbs + 1)
+      (runEnv hexaArrs (runEnv hexaArrs ρ loop_to_str.pre) loop_to_str.init) [] = Hexa32.toStr v :=
+  toStr_fn_bridge _ _ _ _ _ _ (by decide +kernel) (by decide +kernel) (by decide +kernel) (by decide +kernel)
+    (by decide +kernel) (by decide +kernel) v hv ρ h0
+
+example : (0 : Int) ≤ 35 ∧ (35 : Int) ≤ Hexa32.maxInt64 := by decide
+
+/-! ### util/hll — MurmurHashLong and murmurHash, whole functions -/
+
+theorem murmurHashLong_fn_tied (d : Nat) (hd : d < 18446744073709551616) :
+    call noArr fn_MurmurHashLong [(d : Int)] = ((Murmur.murmurLong d : Nat) : Int) := by
+  rw [call_congr (g := GoModel.fn_MurmurHashLong) (by decide +kernel) (by decide +kernel)]
+  exact murmurLong_bridge d hd
+
+/-- `murmurHash(data, len(data), seed)`: loop header `for i := 0; i < int(len_4); i++`, identifier numbers,
+    prelude, body, tail and avalanche — is `Murmur.murmur32 data seed` (for which Props.C15 proves the exact
+    relation to MurmurHash2) -/
+theorem murmurHash_tied (data : Bytes) (hw : WFB data) (seed : Nat) (hs : seed < 4294967296)
+    (hl : data.length < 2147483648) (ρ : Env) (h1 : ρ 1 = (data.length : Int)) (h2 : ρ 2 = (seed : Int)) :
+    callLoop (dataArrs data) loop_murmurHash.pre loop_murmurHash.body loop_murmurHash.after 3 (data.length / 4) ρ
+      = ((Murmur.murmur32 data seed : Nat) : Int) :=
+  murmur32_fn_bridge _ _ _ (by decide +kernel) (by decide +kernel) (by decide +kernel) (by decide +kernel)
+    (by decide +kernel) (by decide +kernel) (by decide +kernel) data hw seed hs hl ρ h1 h2
+
+theorem murmur_headers_tied :
+    loop_murmurHash.header = ["#3 := 0", "#3 < int(#7)", "#3++"] ∧ loop_murmurHash.loopVar = 3
+    ∧ loop_murmurHash.carried = [4]
+    ∧ loop_murmurHashLong.header = ["#3 := 0", "#3 < int(#7)", "#3++"] ∧ loop_murmurHashLong.loopVar = 3
+    ∧ loop_murmurHashLong.carried = [4] := by decide
+
+/-! ### hash.ToInt / hash.ToLong -/
+
+theorem toInt_tied (a b c d : Nat) (rest : Bytes) (ha : a < 256) (hb : b < 256) (hc : c < 256) (hd : d < 256) :
+    some (call (bufArrs (a :: b :: c :: d :: rest)) fn_ToInt []) = Hash.toInt (a :: b :: c :: d :: rest) := by
+  rw [call_congr (g := GoModel.fn_ToInt) (by decide +kernel) (by decide +kernel)]
+  exact toInt_bridge a b c d rest ha hb hc hd
+
+theorem toLong_bytes_tied (a b c d e f g h : Nat) (rest : Bytes) (ha : a < 256) (hb : b < 256) (hc : c < 256)
+    (hd : d < 256) (he : e < 256) (hf : f < 256) (hg : g < 256) (hh : h < 256) :
+    some (call (bufArrs (a :: b :: c :: d :: e :: f :: g :: h :: rest)) fn_ToLong [])
+      = Hash.toLong (a :: b :: c :: d :: e :: f :: g :: h :: rest) := by
+  rw [call_congr (g := GoModel.fn_ToLong) (by decide +kernel) (by decide +kernel)]
+  exact toLong_bridge a b c d e f g h rest ha hb hc hd he hf hg hh
+
+/-! ### util/iputil — the shape of ToString / ToBytes, interpreted -/
+
+/-- the sequence of buffer writes of `ToString` and its empty-slice text, interpreted by
+    `IpShape.toStringOf`, is `IpUtil.toString` on every slice -/
+theorem ipToString_tied (ip : Bytes) :
+    IpShape.toStringOf ipToString_pieces ipToString_empty ip = IpUtil.toString ip := by
+  have h : ipToString_pieces = [.octet 0, .text ".", .octet 1, .text ".", .octet 2, .text ".", .octet 3]
+      ∧ ipToString_empty = "0.0.0.0" := by decide
+  rw [h.1, h.2]; exact IpShape.toStringOf_model ip
+
+/-- separator, part count, loop bound, mask and default bytes of `ToBytes`, interpreted by
+    `IpShape.toBytesOf`, give `IpUtil.toBytes` on every text -/
+theorem ipToBytes_tied (s : List Char) :
+    IpShape.toBytesOf ipToBytes_sep ipToBytes_count ipToBytes_bound ipToBytes_mask ipToBytes_default s
+      = IpUtil.toBytes s := by
+  have h : ipToBytes_sep = "." ∧ ipToBytes_count = 4 ∧ ipToBytes_bound = 4 ∧ ipToBytes_mask = 255
+      ∧ ipToBytes_default = [0, 0, 0, 0] := by decide
+  rw [h.1, h.2.1, h.2.2.1, h.2.2.2.1, h.2.2.2.2]; exact IpShape.toBytesOf_model s
 
 end C15Gen
